@@ -26,3 +26,13 @@ package pipeline
 //@ ensures order: implies(evcount(intermediateBuilt) > old(evcount(intermediateBuilt)), evcount(analysedSources) > old(evcount(analysedSources)))
 //@ ensures once: evcount(intermediateBuilt) <= old(evcount(intermediateBuilt))+1
 //@ ensures failed: implies(result1 != nil && evcount(intermediateBuilt) == old(evcount(intermediateBuilt)), len(result0.Flat) == 0)
+
+// ---- determinism (C13): canonical order of what reaches the emitters ----
+//@ func GleecePipeline.getControllers trusted
+//@ func GleecePipeline.getReductionContext trusted
+
+//@ func GleecePipeline.reduceControllers trusted havocs
+
+//@ func GleecePipeline.getReducedControllers props C13,C01,C14 havocs
+//@ requires p != nil
+//@ ensures sorted: implies(result1 == nil, forall(i, 0, len(result0)-1, !(result0[i+1].Name < result0[i].Name)))
